@@ -1,6 +1,7 @@
 import Nstd.Common.Basic
 import Nstd.Seq.Model
 import Nstd.Seq.PtrModel
+import Nstd.Seq.RawArray
 /-
   Line protocol of the Seq area (List / PoolList / Array of int, two variables of each kind).
   One op per line.  Observation line:
@@ -209,17 +210,36 @@ def ptrAdvance (pp : PtrPair) (before after : State) (op : Op) : PtrPair :=
   { pp2 with ok := pp2.ok && ptrAgrees pp2.h0 after.l0 && ptrAgrees pp2.h1 after.l1 &&
                   ptrAgrees pp2.h2 after.p0 && ptrAgrees pp2.h3 after.p1 }
 
+/-! The cell-level Array model (RawArray.lean) is run in lockstep as well: after every op the two blocks must
+    hold exactly the model's elements followed by raw cells, with the model's capacity (`raw-diverges` otherwise). -/
+
+structure RawLock where
+  pair : Raw.RPair := {}
+  ok : Bool := true
+
+def rawAgrees (r : Raw.RArr) (a : AState) : Bool :=
+  r.cap == a.cap && r.n == a.size &&
+  (match r.cells, a.data with
+   | none, none => true
+   | some cs, some es => cs == es.map some ++ List.replicate (a.cap - es.length) none
+   | _, _ => false)
+
+def rawAdvance (rl : RawLock) (after : State) (op : Op) : RawLock :=
+  match Raw.rstep rl.pair op with
+  | some p => { pair := p, ok := rl.ok && rawAgrees p.a0 after.a0 && rawAgrees p.a1 after.a1 }
+  | none => { rl with ok := false }
+
 def allShown : List Show := [.l 0, .l 1, .p 0, .p 1, .a 0, .a 1]
 
 def line (s : State) (ret : Option Int) (n d : Nat) (sh : List Show) : String :=
   let r := match ret with | some x => toString x | none => "-"
   " | ".intercalate (s!"r={r} n={n} d={d}" :: sh.map (showOne s))
 
-def stepLine (stp : State × PtrPair) (ws : List String) : (State × PtrPair) × String :=
-  let (st, pp) := stp
+def stepLine (stp : State × PtrPair × RawLock) (ws : List String) : (State × PtrPair × RawLock) × String :=
+  let (st, pp, rl) := stp
   match ws with
-  | ["reset"] => (({}, {}), line {} none 0 0 allShown)
-  | ["dump"] => (stp, line st none 0 0 allShown ++ (if pp.ok then "" else " ptr-diverges"))
+  | ["reset"] => (({}, {}, {}), line {} none 0 0 allShown)
+  | ["dump"] => (stp, line st none 0 0 allShown ++ (if pp.ok then "" else " ptr-diverges") ++ (if rl.ok then "" else " raw-diverges"))
   | _ =>
     match parseOp ws with
     | none => (stp, "bad-op")
@@ -227,9 +247,11 @@ def stepLine (stp : State × PtrPair) (ws : List String) : (State × PtrPair) ×
       match step st op with
       | some r =>
         let pp' := ptrAdvance pp st r.st op
-        ((r.st, pp'), line r.st r.ret r.allocs r.frees (touched op) ++ (if pp'.ok then "" else " ptr-diverges"))
+        let rl' := rawAdvance rl r.st op
+        ((r.st, pp', rl'), line r.st r.ret r.allocs r.frees (touched op) ++ (if pp'.ok then "" else " ptr-diverges") ++
+          (if rl'.ok then "" else " raw-diverges"))
       | none => (stp, "bad-op")
 
 end Nstd.Seq
 
-def main : IO Unit := Nstd.Common.ioLoop (({}, {}) : Nstd.Seq.State × Nstd.Seq.PtrPair) Nstd.Seq.stepLine
+def main : IO Unit := Nstd.Common.ioLoop (({}, {}, {}) : Nstd.Seq.State × Nstd.Seq.PtrPair × Nstd.Seq.RawLock) Nstd.Seq.stepLine
